@@ -75,7 +75,14 @@ def generate(rng, tier, index):
     # first use in a process: one plan in four runs its threads in a newly started process, so that whatever the library sets up on
     # first use (tables, caches, function-local statics) is set up while the other threads are already running
     plan["fresh_process"] = rng.chance(25)
+    for c in clients:
+        for lc in c["lifecycles"]:
+            lc["badload"] = rng.range(1, 3) if rng.chance(12) else 0
     return plan
+
+
+BADLOADS = ["# nothing but a comment\nPHASES\n Brokenite\n Xx = Yy\n", "SOLUTION_MASTER_SPECIES\n H H+ -1 H 1.008\nSOLUTION_SPECIES\n H+ = H+\n log_k 0\n",
+            "SOLUTION_MASTER_SPECIES\n E e- 0 0 0\nEND\n"]
 
 
 def compile_client(prog, ci, plan):
@@ -118,6 +125,10 @@ def compile_client(prog, ci, plan):
             emit(call(b, t, "SetSelectedOutputStringOn", 1), "ret")
         emit(call(b, t, "SetCurrentSelectedOutputUserNumber", 1), "ret")
         dbp = W.db(lc["inputs"][0])
+        if lc.get("badload"):
+            # a load that fails (legal use) before the real one: a text without master species reaches the paths for empty tables
+            emit(call(b, t, "LoadDatabaseString", BADLOADS[lc["badload"] - 1]), "ret")
+            emit(call(b, t, "GetErrorString"), "ret")
         if lc["dbstring"]:
             emit(call(b, t, "LoadDatabaseString", read_text(dbp)), "ret0")
         else:
@@ -220,6 +231,8 @@ def check_plan(ctx, plan):
     rep.count("cross_thread_dead_ids", sum(1 for ci2 in range(len(clients)) for o in res.client(ci2) if clients[ci2][o.idx][0] == "await" and o.f and o.f[0] == "received"))
     if "mutex_unlock_without_lock" in res.events:
         rep.count("unlock_without_lock")
+        rep.viol("sync", "sync:mutex_unlock_without_lock", "a library mutex was unlocked by a thread that does not hold it (undefined for POSIX mutexes; it releases the lock under a thread that does hold it):\n"
+                 + "\n".join(l for l in res.events.split("\n") if "mutex_unlock_without_lock" in l)[:600])
     inside = int(res.done.get("inside", 0))
     rep.count("inside_preemptions", inside)
     rep.count("blocked_on_mutex", int(res.done.get("blocked", 0)))
